@@ -549,6 +549,7 @@ def run(ctx):
 
     # ---- property oracles on the real code + singular witnesses
     oracle_fail = oracles(ctx, real)
+    oracle_fail = oracle_fail + batch_shape_checks(ctx, real)
     witnesses(ctx, real)
 
     # a model/code disagreement is classified: does a property fail on the real code there?
@@ -585,6 +586,87 @@ def run(ctx):
 def common_path(rel):
     from common import VERIF
     return VERIF / rel
+
+
+# ---------------------------------------------------------------- batch shapes
+def batch_shape_checks(ctx, real):
+    """every conversion / composition acts element by element: for any batch shape — in particular shapes containing a 3 or a 4
+    next to the component axis — the result at a batch position equals the unbatched call on that element, and the properties
+    (unit norm, composition = matrix product) hold there.  A failure is a concrete (function, shape, position)."""
+    torch, rot = real.torch, real.rot
+    g = torch.Generator().manual_seed(ctx.seed + 1212)
+    fails = []
+    shapes = [(3,), (4,), (2, 3), (3, 2), (3, 3), (4, 3), (3, 4), (3, 1, 4), (2, 3, 4), (1,), (5,)]
+
+    def r(*s):
+        return torch.randn(tuple(s), generator=g, dtype=torch.float64)
+
+    def elementwise(name, fn, args, shape):
+        """fn(*args) on the batch vs stacked unbatched calls"""
+        ctx.case(("batch-shape", name, shape))
+        ctx.count("batch-shape")
+        try:
+            got = fn(*args)
+        except Exception as e:  # noqa: BLE001
+            fails.append(dict(oracle=name + ":batch-shape", shape=list(shape), error=repr(e)[:300]))
+            return
+        gots = got if isinstance(got, tuple) else (got,)
+        import itertools as _it
+        worst, where = 0.0, None
+        for idx in _it.product(*[range(n) for n in shape]):
+            one = fn(*[a[idx] for a in args])
+            ones = one if isinstance(one, tuple) else (one,)
+            for G, O in zip(gots, ones):
+                d = float((G[idx] - O).abs().max()) if O.numel() else 0.0
+                if d > worst:
+                    worst, where = d, idx
+        if worst > 1e-12:
+            fails.append(dict(oracle=name + ":batch-shape", shape=list(shape), position=list(where), error=worst, tol=1e-12,
+                              call=f"o3.{name}(batch of shape {shape})[{where}] vs o3.{name}(element {where})"))
+
+    for shape in shapes:
+        q1 = torch.nn.functional.normalize(r(*shape, 4), dim=-1)
+        q2 = torch.nn.functional.normalize(r(*shape, 4), dim=-1)
+        a, b, c = r(*shape), r(*shape).abs() % 3.0 + 0.05, r(*shape)
+        ax = torch.nn.functional.normalize(r(*shape, 3), dim=-1)
+        an = r(*shape).abs() % 3.0 + 0.05
+        ax2 = torch.nn.functional.normalize(r(*shape, 3), dim=-1)
+        an2 = r(*shape).abs() % 3.0 + 0.05
+        R = rot.angles_to_matrix(a, b, c)
+        elementwise("compose_quaternion", rot.compose_quaternion, (q1, q2), shape)
+        elementwise("inverse_quaternion", rot.inverse_quaternion, (q1,), shape)
+        elementwise("quaternion_to_matrix", rot.quaternion_to_matrix, (q1,), shape)
+        elementwise("quaternion_to_axis_angle", rot.quaternion_to_axis_angle, (q1,), shape)
+        elementwise("angles_to_quaternion", rot.angles_to_quaternion, (a, b, c), shape)
+        elementwise("angles_to_matrix", rot.angles_to_matrix, (a, b, c), shape)
+        elementwise("angles_to_axis_angle", rot.angles_to_axis_angle, (a, b, c), shape)
+        elementwise("axis_angle_to_quaternion", rot.axis_angle_to_quaternion, (ax, an), shape)
+        elementwise("axis_angle_to_matrix", rot.axis_angle_to_matrix, (ax, an), shape)
+        elementwise("compose_axis_angle", rot.compose_axis_angle, (ax, an, ax2, an2), shape)
+        elementwise("compose_angles", lambda *t: rot.angles_to_matrix(*rot.compose_angles(*t)), (a, b, c, c, b, a), shape)
+        elementwise("matrix_to_angles", lambda M: rot.angles_to_matrix(*rot.matrix_to_angles(M)), (R,), shape)
+        elementwise("matrix_to_quaternion", rot.matrix_to_quaternion, (R,), shape)
+        elementwise("matrix_to_axis_angle", rot.matrix_to_axis_angle, (R,), shape)
+        elementwise("xyz_to_angles", rot.xyz_to_angles, (ax,), shape)
+        elementwise("angles_to_xyz", rot.angles_to_xyz, (a, b), shape)
+        elementwise("inverse_angles", rot.inverse_angles, (a, b, c), shape)
+        # the property itself on the batch: composition = matrix product, unit norm
+        ctx.case(("batch-shape", "compose_quaternion=matrix-product", shape))
+        q12 = rot.compose_quaternion(q1, q2)
+        e1 = float((rot.quaternion_to_matrix(q12) - rot.quaternion_to_matrix(q1) @ rot.quaternion_to_matrix(q2)).abs().max())
+        e2 = float((q12.norm(dim=-1) - 1).abs().max())
+        if max(e1, e2) > 1e-10:
+            fails.append(dict(oracle="compose_quaternion:matrix-product-on-batch", shape=list(shape), error=max(e1, e2), tol=1e-10,
+                              call=f"quaternion_to_matrix(compose_quaternion(q1, q2)) vs quaternion_to_matrix(q1) @ quaternion_to_matrix(q2), unit quaternions of batch shape {shape}"))
+    ctx.obligation("oracle:batch-shape-independence", not fails, json.dumps(fails[:4]))
+    seen = set()
+    for f in fails:
+        key = f"{f['oracle'].split(':')[0]}/batch-shape"
+        if key in seen or len(seen) >= 5:
+            continue
+        seen.add(key)
+        ctx.violation(key, dict(f, all_failing=[x["oracle"] + str(x.get("shape")) for x in fails][:30]), found=True)
+    return fails
 
 
 # ---------------------------------------------------------------- broadcasting
